@@ -39,10 +39,38 @@ Inductive sobs :=
           (fd tmp : N)         (* descriptor and temporary name, as recorded *)
           (ending : N)         (* 0 replace, 1 unchanged (skip), 2 abort (write / download / parser failure) *)
           (fault : N)          (* 0 none, 1 creation of the temporary file, 2 fsync, 3 rename *)
-          (res : N).           (* reported by the save: 0 replaced, 1 not replaced without error, 2 error *)
+          (res : N)            (* reported by the save: 0 replaced, 1 not replaced without error, 2 error *)
+  (* Round 6 (K): dhcpd.migrateDB.  [state] of the legacy file when the call starts: 0 present and
+     decodable, 1 absent, 2 decodes to no table ("null"), 3 not decodable, 4 cannot be opened;
+     [oldp] its path; descriptor and temporary name as recorded; [ending]: 0 the write ran to its
+     end, 2 a write was cut (file-size limit); [fault] as for SSave; [res]: 0 migrated, 1 nothing
+     to migrate, 2 error. *)
+  | SMigrate (state : N) (oldp : N) (fd tmp : N) (ending : N) (fault : N) (res : N).
 
 Definition outcome_class (r : outcome) : N :=
   match r with Replaced => 0 | Skipped => 1 | Failed _ => 2 end.
+
+Definition mig_class (r : mig_res) : N :=
+  match r with MigDone => 0 | MigNothing => 1 | MigErr => 2 end.
+
+(** The migration model on the harness's description of one call.  The data
+    of the write calls come from the trace ([done]); a cut write is the model's
+    own fault plan: every recorded call is served, the next one gets nothing
+    onto the disk. *)
+Definition migrate_model (dst : path) (state oldp fd tmp ending fault : N) (done : list data) : list op * mig_res :=
+  let s0 := boot (if state =? 1 then [] else [(oldp, [])]) in
+  let cut := ending =? 2 in
+  let chunks := if cut then done ++ [[0]] else done in
+  let conv (_ : data) := if state =? 0 then ConvNew chunks else if state =? 2 then ConvNothing else ConvErr in
+  let p := {| p_open := fault =? 1; p_write := if cut then Some (length done, 0) else None;
+              p_sync := fault =? 2; p_close := false; p_rename := fault =? 3 |} in
+  migrate true s0 oldp dst fd tmp (negb (state =? 4)) conv p false.
+
+(** The migration's description is tight at its end: what follows the
+    model's operations is not a removal of the legacy file (else an
+    unpredicted removal would be blamed on the next save). *)
+Definition no_stray_unlink (oldp : N) (rest : list op) : bool :=
+  match rest with Unlink p :: _ => negb (p =? oldp) | _ => true end.
 
 Fixpoint leading_writes (fd : N) (t : list op) : list data :=
   match t with
@@ -81,6 +109,10 @@ Fixpoint replay (dst : path) (ss : list sobs) (t : list op) : bool :=
                   p_rename := fault =? 3 |} in
       let mr := save_ops (negb upd) fd tmp dst done e p in
       prefix_eqb (fst mr) t && (outcome_class (snd mr) =? res) && replay dst r (skipn_N t (fst mr))
+  | SMigrate state oldp fd tmp ending fault res :: r =>
+      let done := match t with Open _ _ _ :: t' => leading_writes fd t' | _ => [] end in
+      let mr := migrate_model dst state oldp fd tmp ending fault done in
+      prefix_eqb (fst mr) t && (mig_class (snd mr) =? res) && no_stray_unlink oldp (skipn_N t (fst mr)) && replay dst r (skipn_N t (fst mr))
   end.
 
 (** Index of the first save description the trace does not follow (for
@@ -100,6 +132,38 @@ Fixpoint first_bad_save (dst : path) (ss : list sobs) (t : list op) (k : N) : op
       let mr := save_ops (negb upd) fd tmp dst done e p in
       if prefix_eqb (fst mr) t && (outcome_class (snd mr) =? res)
       then first_bad_save dst r (skipn_N t (fst mr)) (k + 1) else Some k
+  | SMigrate state oldp fd tmp ending fault res :: r =>
+      let done := match t with Open _ _ _ :: t' => leading_writes fd t' | _ => [] end in
+      let mr := migrate_model dst state oldp fd tmp ending fault done in
+      if prefix_eqb (fst mr) t && (mig_class (snd mr) =? res) && no_stray_unlink oldp (skipn_N t (fst mr))
+      then first_bad_save dst r (skipn_N t (fst mr)) (k + 1) else Some k
+  end.
+
+(** For replay files: what the model computes for the first save it does not
+    reproduce (operations and reported class), and what is left of the trace
+    at that point. *)
+Fixpoint bad_save_detail (dst : path) (ss : list sobs) (t : list op) : option (list op * N * list op) :=
+  match ss with
+  | [] => match t with [] => None | _ => Some ([], 9, t) end
+  | SAny n :: r => bad_save_detail dst r (skipn (N.to_nat n) t)
+  | SProbe fd1 p1 fd2 p2 rf :: r =>
+      let m := probe_ops fd1 p1 fd2 p2 rf in
+      if prefix_eqb m t then bad_save_detail dst r (skipn_N t m) else Some (m, 9, firstn 12 t)
+  | SSave upd fd tmp ending fault res :: r =>
+      let done := match t with Open _ _ _ :: t' => leading_writes fd t' | _ => [] end in
+      let e := if ending =? 0 then EReplace else if ending =? 1 then ESkip else EAbort AtRead in
+      let p := {| p_open := fault =? 1; p_write := None; p_sync := fault =? 2; p_close := false;
+                  p_rename := fault =? 3 |} in
+      let mr := save_ops (negb upd) fd tmp dst done e p in
+      if prefix_eqb (fst mr) t && (outcome_class (snd mr) =? res)
+      then bad_save_detail dst r (skipn_N t (fst mr))
+      else Some (fst mr, outcome_class (snd mr), firstn (length (fst mr) + 3) t)
+  | SMigrate state oldp fd tmp ending fault res :: r =>
+      let done := match t with Open _ _ _ :: t' => leading_writes fd t' | _ => [] end in
+      let mr := migrate_model dst state oldp fd tmp ending fault done in
+      if prefix_eqb (fst mr) t && (mig_class (snd mr) =? res) && no_stray_unlink oldp (skipn_N t (fst mr))
+      then bad_save_detail dst r (skipn_N t (fst mr))
+      else Some (fst mr, mig_class (snd mr), firstn (length (fst mr) + 3) t)
   end.
 
 Inductive case :=
@@ -134,8 +198,23 @@ Inductive case :=
      opened, chunks, cut); fault (0 none, 1 the temporary file cannot be
      created); observed: error reported, restart flag, file afterwards. *)
   | CSetUrl (old : option data) (enabled loaded : bool) (url_changes taken new_enabled : bool)
-            (src_ok : bool) (chunks : list data) (cut : bool) (fault : N)
-            (obs_err obs_restart : bool) (obs_file : option data).
+            (status : N)            (* round 6: final status of the source; 0 = no answer *)
+            (chunks : list data) (cut : bool) (fault : N)
+            (obs_err obs_restart : bool) (obs_file : option data)
+  (* Round 6 (K): a traced scenario with migrateDB calls: the fields of CTrace
+     plus the path of the legacy leases.db.  Judged as CTrace and, in
+     addition: at every instant and after a crash at every prefix the new file
+     is a complete published version or the legacy file is as it was. *)
+  | CMigTrace (oldp : path) (dst : path) (keep : list path) (ents : list (path * data)) (t : list op)
+              (bytes_mode : bool) (ordered : bool) (obs_lens : list (option N)) (obs_versions : list (option data))
+              (saves : list sobs)
+  (* Round 6 (L): one refresh of a list that was downloaded before, from a
+     list server that answers with any status.  [web]: URL number -> answer
+     (redirect / status, body in chunks, cut / nothing: no answer); [url]: the
+     list's URL; fault as for CSetUrl; observed: error reported, file
+     afterwards.  Bytes. *)
+  | CStatus (old : option data) (web : list (N * answer)) (url : N) (fault : N)
+            (obs_err : bool) (obs_file : option data).
 
 
 (** *** Round 5: the list scenarios (bytes; the line processor [simple_pl]
@@ -192,8 +271,9 @@ Definition overlap_checks (lists : list (N * list data * bool * N * option data)
                end end) lists;
     Nat.eqb (length obs) (length lists) ].
 
-Definition seturl_model (old : option data) (enabled loaded url_changes taken new_enabled src_ok : bool)
+Definition seturl_model (old : option data) (enabled loaded url_changes taken new_enabled : bool) (status : N)
            (chunks : list data) (cut : bool) (fault : N) :=
+  let src_ok := only_200 status in
   l_set true (oboot old) {| e_url := 7; e_enabled := enabled; e_sum := if loaded then osum old else 0 |} taken
         {| q_url := if url_changes then 8 else 7; q_enabled := new_enabled |} 3 2 1 src_ok (serve chunks cut)
         (plan_of fault) false.
@@ -202,7 +282,7 @@ Definition seturl_model (old : option data) (enabled loaded url_changes taken ne
     the file afterwards; 4 a call reporting an error made only operations the
     checker accepts and dst never stopped naming a file
     ([C14_failed_set_url_keeps_file]). *)
-Definition seturl_checks (old : option data) (enabled loaded url_changes taken new_enabled src_ok : bool)
+Definition seturl_checks (old : option data) (enabled loaded url_changes taken new_enabled : bool) (src_ok : N)
            (chunks : list data) (cut : bool) (fault : N) (obs_err obs_restart : bool) (obs_file : option data)
   : list bool :=
   let s := oboot old in
@@ -226,9 +306,55 @@ Definition mem_odata (v : option data) (l : list (option data)) := existsb (eqb_
     it names one after every later operation (never renamed away, unlinked or
     otherwise absent); 7 the save model reproduces the trace save by save and
     predicts what each save reported. *)
-Definition checks (c : case) : list bool :=
-  match c with
-  | CTrace dst keep ents t bm ord lens vers saves =>
+(** *** Round 6 (L): the status scenarios *)
+
+(** the case files see only this module: the answers of the list server *)
+Definition answer := SaveLoop.answer.
+Definition ARedirect : N -> answer := SaveLoop.ARedirect.
+Definition AServe : N -> list data -> bool -> answer := SaveLoop.AServe.
+
+Definition web_of (web : list (N * answer)) (u : N) : answer :=
+  match aget web u with Some a => a | None => ADown end.
+
+Definition status_model (old : option data) (web : list (N * answer)) (url fault : N) :=
+  update_from_url (bst bool) l_st0 l_feed l_finish big_sum only_200 max_redirects (web_of web) url 3 2 1
+                  (osum old) (plan_of fault).
+
+Definition final_status_of (web : list (N * answer)) (url : N) : option N :=
+  option_map fst (fetch max_redirects (web_of web) url).
+
+(** 1 error reported iff the model's download fails; 2 the file afterwards is
+    the model's; 3 ([C14_non_200_keeps_file], evaluated) a final status other
+    than 200, or no answer, means: error and the file as it was; 4 the
+    model's operations are accepted by the checker. *)
+Definition status_checks (old : option data) (web : list (N * answer)) (url fault : N)
+           (obs_err : bool) (obs_file : option data) : list bool :=
+  let s := oboot old in
+  let x := status_model old web url fault in
+  [ Bool.eqb obs_err (match snd x with Failed _ => true | _ => false end);
+    eqb_option eqb_bytes obs_file (live_view (run s (fst x)) 1);
+    match final_status_of web url with
+    | Some 200 => true
+    | _ => obs_err && eqb_option eqb_bytes obs_file old
+    end;
+    trace_safe 1 s (fst x) && dst_stays 1 s (fst x) ].
+
+(** *** Round 6 (K): the lease data in two paths *)
+
+Definition pair_ok (pub : list (option data)) (oc : option data) (vw : option data * option data) : bool :=
+  existsb (eqb_option eqb_bytes (fst vw)) pub || eqb_option eqb_bytes (snd vw) oc.
+
+(** Every pair readable at (dst, legacy path) at any instant or after a crash
+    at any prefix: dst is a version published in this trace, or the legacy
+    file is what it was at the start. *)
+Definition mig_pairs_ok (dst oldp : path) (s : fs) (t : list op) : bool :=
+  match live_view s oldp with
+  | None => true
+  | oc => forallb (pair_ok (versions s t dst) oc) (visible_pairs s t dst oldp)
+  end.
+
+Definition trace_checks (dst : path) (keep : list path) (ents : list (path * data)) (t : list op)
+           (bm ord : bool) (lens : list (option N)) (vers : list (option data)) (saves : list sobs) : list bool :=
       let s := boot ents in
       let av := all_versions s t dst in
       [ trace_safe dst s t;
@@ -242,9 +368,16 @@ Definition checks (c : case) : list bool :=
          else forallb (fun v => mem_odata v vers) av && eqb_odata (hd None av) (hd None vers));
         (if bm then forallb (fun v => mem_odata v av) (visible_states s t dst) else true);
         dst_stays dst s t;
-        replay dst saves t ]
+        replay dst saves t ].
+
+Definition checks (c : case) : list bool :=
+  match c with
+  | CTrace dst keep ents t bm ord lens vers saves => trace_checks dst keep ents t bm ord lens vers saves
   | COverlap lists sched obs => overlap_checks lists sched obs
   | CSetUrl old en ld uc tk ne so ch cut fl oe orr ofile => seturl_checks old en ld uc tk ne so ch cut fl oe orr ofile
+  | CMigTrace oldp dst keep ents t bm ord lens vers saves =>
+      trace_checks dst keep ents t bm ord lens vers saves ++ [mig_pairs_ok dst oldp (boot ents) t]
+  | CStatus old web url fl oe ofile => status_checks old web url fl oe ofile
   end.
 
 Definition case_ok (c : case) : bool := forallb (fun b => b) (checks c).
@@ -260,20 +393,37 @@ Definition mismatches := Base.Run.mismatches case_ok.
     model's operations, error, restart, file. *)
 Inductive expl :=
   | XTrace (x : list bool * option N * option N * option N * list path * list (option N) * list (option data))
+  (* the first save the model does not reproduce: the model's operations and reported class, the
+     recorded operations at that point; the pairs (dst, legacy) that are neither a published
+     version nor the legacy file as it was (first three) *)
+  | XMigTrace (x : list bool * option N * option N * option N * list path * list (option N) * list (option data))
+              (bad_save : option (list op * N * list op)) (bad_pairs : list (option data * option data))
+  | XStatus (verdicts : list bool) (final_status : option N) (ops : list op) (outcome : N) (file : option data)
   | XOverlap (verdicts : list bool) (results : list (N * option (list data * bool))) (files : list (N * option data))
   | XSetUrl (verdicts : list bool) (ops : list op) (err : bool) (restart : option bool) (file : option data).
 
-Definition explain (c : case) : expl :=
-  match c with
-  | CTrace dst keep ents t bm ord lens vers saves =>
+Definition xtrace (vd : list bool) (dst : path) (keep : list path) (ents : list (path * data)) (t : list op)
+           (bm : bool) (saves : list sobs) :=
       let s := boot ents in
       let av := all_versions s t dst in
-      XTrace
-      (checks c, first_unsafe dst s t 0, first_absent dst s t 0, first_bad_save dst saves t 0,
+      (vd, first_unsafe dst s t 0, first_absent dst s t 0, first_bad_save dst saves t 0,
        filter (fun p => match aget (dir_cur (run s t)) p with Some _ => negb (existsb (N.eqb p) (dst :: keep)) | None => false end)
               (created s t),
        map (option_map (byte_len bm)) av,
-       if bm then filter (fun v => negb (mem_odata v av)) (visible_states s t dst) else [])
+       if bm then filter (fun v => negb (mem_odata v av)) (visible_states s t dst) else []).
+
+Definition explain (c : case) : expl :=
+  match c with
+  | CTrace dst keep ents t bm ord lens vers saves => XTrace (xtrace (checks c) dst keep ents t bm saves)
+  | CMigTrace oldp dst keep ents t bm ord lens vers saves =>
+      let s := boot ents in
+      XMigTrace (xtrace (checks c) dst keep ents t bm saves) (bad_save_detail dst saves t)
+                (firstn 3 (filter (fun vw => negb (pair_ok (versions s t dst) (live_view s oldp) vw))
+                                  (match live_view s oldp with None => [] | _ => visible_pairs s t dst oldp end)))
+  | CStatus old web url fl oe ofile =>
+      let x := status_model old web url fl in
+      XStatus (checks c) (final_status_of web url) (fst x) (outcome_class (snd x))
+              (live_view (run (oboot old) (fst x)) 1)
   | COverlap lists sched obs =>
       let w := overlap_world lists sched in
       XOverlap (checks c)
